@@ -18,6 +18,18 @@ NEEDS = {
     'C13-r7m2': 'symmetric form with 0.25 < frac(R/res) < 0.5 and a point near +R (own count with round())',
     'C14-r7m1': 'one caster, two casts whose origins are different points of the same cell',
     'C14-r7m2': 'an oblique ray that crosses no cell border along one axis (step from the indexes, tMax guarded by the direction)',
+    'C01-r8m1': 'a longitude within about 3e-7 rad of the +-90 deg meridians (cos derived from sin: cancellation, a rounding statement)',
+    'C01-r8m2': 'southern hemisphere with geodetic latitude at or below about -45.2 deg (fabs(Z)/sin(latitude) height branch)',
+    'C02-r8m1': 'a point far from the anchor horizontally and at a different height (height added along the anchor up axis)',
+    'C02-r8m2': 'reset() followed by a new anchor, frame used as a 4x4 homogeneous matrix (bottom row left at zero)',
+    'C03-r8m1': 'two consecutive toLambert() calls on one converter whose latitudes differ by less than 1e-10 rad',
+    'C03-r8m2': 'an ellipsoid expressed in units of its semi-major axis (a = 1): rho < 1 apex guard',
+    'C04-r8m1': 'rotation near pi of an anisotropic cloud (all entries of the cross-covariance block negative: signed maxCoeff)',
+    'C04-r8m2': 'thin but not collinear clouds (second singular value below 1e-6 of the first)',
+    'C05-r8m1': 'residuals that cancel without being zero (closed or symmetric object): signed sum test',
+    'C05-r8m2': 'index-based overload with correspondence weights other than 1 and a non-zero residual',
+    'C07-r8m1': 'estimate size exactly 1 with a non-trivial preconditioner through the Cholesky or weighted entry',
+    'C07-r8m2': 'the double instantiation with cond(J) of about 100 (float accumulator in std::inner_product)',
     'C09-r7m1': 'single-precision point types, neighbourhoods with relative eigen-gap in ]1e-6, 3.45e-4] (isotropic fallback)',
     'C09-r7m2': 'two threads starting estimators on one fresh shared KdTree (lazy index build; outside the quantifier of C09: inputs and configurations only)',
     'C15-r7m1': '2-D grid, two translations with a Y component and different empty values (cached empty row)',
